@@ -88,6 +88,9 @@ RW_RefAgrees(o)  == o.refAgrees
 \* wtsOut: content tag of the weight vector as it leaves the training step, i.e. as resampling receives it (the same array object
 \* is handed from reweighting to training to resampling): still the weights of the recorded temperature
 TR_WeightsIntact(o) == o.wtsOut = wts
+\* modelStable: the clusterer labels the training particles at the end of the training step exactly as it did when the modes were
+\* built from them (the resampling step labels the active particles with the model as it is THEN)
+TR_ModelStable(o) == o.modelStable
 TR_Skip(o)          == (o.branch = "Skip") <=> (beta = 0)
 TR_Branch(o)        == beta > 0 => (IF cfg.clustering THEN o.branch \in {"Fit", "PredictOnly"} ELSE o.branch = "Global")
 TR_PredictFitted(o) == o.branch = "PredictOnly" => clus.fitted
@@ -178,7 +181,7 @@ RW_Clauses(o) == [RW_Iter |-> RW_Iter(o), RW_FirstZero |-> RW_FirstZero(o), RW_M
                   RW_SameBeta |-> RW_SameBeta(o), RW_RefAgrees |-> RW_RefAgrees(o)]
 TR_Clauses(o) == [TR_Skip |-> TR_Skip(o), TR_Branch |-> TR_Branch(o), TR_PredictFitted |-> TR_PredictFitted(o),
                   TR_Cadence |-> TR_Cadence(o), TR_FitSets |-> TR_FitSets(o), TR_Cap |-> TR_Cap(o),
-                  TR_ModesOK |-> TR_ModesOK(o), TR_ModesExist |-> TR_ModesExist(o), TR_WeightsIntact |-> TR_WeightsIntact(o)]
+                  TR_ModesOK |-> TR_ModesOK(o), TR_ModesExist |-> TR_ModesExist(o), TR_WeightsIntact |-> TR_WeightsIntact(o), TR_ModelStable |-> TR_ModelStable(o)]
 RS_Clauses(o) == [RS_WholeCopies |-> RS_WholeCopies(o), RS_Count |-> RS_Count(o), RS_LabelRange |-> RS_LabelRange(o),
                   RS_LabelsFromModel |-> RS_LabelsFromModel(o)]
 MP_Clauses(o) == [MP_Count |-> MP_Count(o), MP_Coherent |-> MP_Coherent(o), MP_NoInf |-> MP_NoInf(o),
